@@ -244,6 +244,8 @@ pub enum RsMem {
     Pfx(Pfx, Op),
     Asn(u32),
     Set(String),
+    /// a member word that is no prefix range (index into the model's `junkWords`)
+    Junk(usize),
 }
 
 #[derive(Clone, Debug, Default)]
@@ -293,6 +295,7 @@ impl Db {
                             RsMem::Pfx(p, o) => format!("{}{}", p.tok(), o.tok()),
                             RsMem::Asn(a) => format!("a{a}"),
                             RsMem::Set(s) => s.clone(),
+                            RsMem::Junk(k) => format!("j{k}"),
                         })
                         .collect::<Vec<_>>()
                         .join(";")
@@ -600,6 +603,8 @@ pub struct GenOpts {
     pub unknown_names: bool,
     /// short prefixes only, `NOT` allowed
     pub short: bool,
+    /// route-sets may hold member words that are no prefix range
+    pub junk_members: bool,
 }
 
 fn gen_db(rng: &mut Rng, g: &GenOpts) -> Db {
@@ -661,6 +666,10 @@ fn gen_db(rng: &mut Rng, g: &GenOpts) -> Db {
         let k = rng.below(5);
         let mut ms = vec![];
         for _ in 0..k {
+            if g.junk_members && rng.chance(1, 3) {
+                ms.push(RsMem::Junk(rng.below(10)));
+                continue;
+            }
             match rng.below(6) {
                 0 | 1 => ms.push(RsMem::Set(rng.pick(&rs_names).clone())),
                 2 => ms.push(RsMem::Asn(*rng.pick(&asns))),
@@ -1011,6 +1020,7 @@ pub fn gen_case(family: &str, seed: u64, idx: usize) -> Case {
                 ranged_members: idx % 4 == 0,
                 unknown_names: idx % 5 == 0,
                 short: idx % 2 == 1,
+                junk_members: idx % 3 == 1,
             };
             let db = gen_db(&mut rng, &g);
             let names = names_of(&db, g.short);
@@ -1088,6 +1098,7 @@ pub fn gen_case(family: &str, seed: u64, idx: usize) -> Case {
                 ranged_members: false,
                 unknown_names: true,
                 short: idx % 2 == 1,
+                junk_members: idx % 3 == 1,
             };
             let db = gen_db(&mut rng, &g);
             let names = names_of(&db, g.short);
@@ -1193,6 +1204,7 @@ pub fn gen_case(family: &str, seed: u64, idx: usize) -> Case {
                 ranged_members: false,
                 unknown_names: true,
                 short: idx % 2 == 1,
+                junk_members: idx % 3 == 1,
             };
             let db = gen_db(&mut rng, &g);
             let names = names_of(&db, g.short);
@@ -1229,6 +1241,7 @@ pub fn gen_case(family: &str, seed: u64, idx: usize) -> Case {
                 ranged_members: false,
                 unknown_names: false,
                 short: idx % 2 == 1,
+                junk_members: idx % 3 == 1,
             };
             let mut db = if idx % 3 == 0 {
                 small_db()
@@ -1399,6 +1412,7 @@ pub fn gen_flat(seed: u64, idx: usize) -> FlatCase {
             ranged_members: false,
             unknown_names: false,
             short,
+            junk_members: idx % 3 == 1,
         },
     );
     let names = names_of(&db, short);
